@@ -573,7 +573,7 @@ EXTRACT_V = r'''
 Require Import PyBase Generated Symbols Table.
 Require Import ExtrOcamlBasic ExtrOcamlString.
 Extraction Language OCaml.
-Extraction "%(out)s" model_to_table container_to_table from_table from_dataframe_call linker_to_tables symbols_to_table table_to_symbols
+Extraction "%(out)s" model_to_table container_to_table from_table from_dataframe_call linker_to_tables linker_name_free symbols_to_table table_to_symbols
   pd_infer pd_index pd_of_series cast_series
   type_of_value type_value string_of_Z Z_of_string.
 '''
@@ -735,6 +735,10 @@ let handle line =
                  | None -> "{\"unmodelled\":true}") in
       "{\"col\":" ^ col ^ ",\"index\":" ^ idx ^ "}"
   | L [A "pdcast"; d; sr] -> "{\"cast\":" ^ jres (jlist jcell) (cast_series (ndt_of d) (series_of sr)) ^ "}"
+  | L [A "linkerctor"; name; keys] ->
+      let dummy = { fspan = { spkind = SList; splabels = [] }; fnames = []; fvars = []; fstatus = { sdt = NStr; scells = [] }; fiters = { sdt = NInt; scells = [] } } in
+      if linker_name_free (cell_of name) (List.map (fun k -> (cell_of k, dummy)) (list_of keys)) then "{\"ctor\":\"ok\"}"
+      else "{\"ctor\":{\"raise\":\"DuplicateNameError\"}}"
   | L [A "symbols"; ss] ->
       let t = symbols_to_table (List.map sym_of (list_of ss)) in
       let rt = match t with TOk tb -> jres (jlist jsym) (table_to_symbols tb) | _ -> "null" in
@@ -963,6 +967,8 @@ def encode(case, o):
         dv = cl.get('default') or ['fi', 0]
         return '(export %d %d %d %s (class %s %s %s %d %d))' % (st, it, ii, sx_model_from_obs(None if case.get('history') else case['span'], o['pre']),
                                                                sx_names(cl['names']), NDT[d], sx_cell(dv), 1 if cl.get('strict') else 0, int(cl.get('nargs') or 0))
+    if k == 'linker' and 'raise' in o:
+        return '(linkerctor %s (%s))' % (sx_cell(case['name']), ' '.join(sx_cell(kk) for kk, _, _ in case['subs']))
     if k == 'linker':
         st, it, ii = case['flags']
         pre = o['pre']
@@ -1037,7 +1043,12 @@ def compare(case, o, r):
         return None if canon_table(o['table']) == r['table'] else 'table: impl %s model %s' % (json.dumps(canon_table(o['table']))[:600], json.dumps(r['table'])[:600])
     if k == 'linker':
         if 'raise' in o:
-            return 'linker construction raised %s' % o['raise']
+            # only the name test of the constructor is modelled (spans that differ / hold NaN raise InitialisationError: C08)
+            if r.get('ctor') == 'ok':
+                return 'BaseLinker(...) raised DuplicateNameError although the name is no submodel identifier' if o['raise'] == 'DuplicateNameError' else None
+            return None if o['raise'] == 'DuplicateNameError' else 'BaseLinker(...) raised %s, the name test (DuplicateNameError) comes first' % o['raise']
+        if any(kk == case['name'] for kk, _, _ in case['subs']):
+            return 'BaseLinker(...) accepted a name that is also a submodel identifier'
         if r['tables'] == {'unmodelled': True}:
             return None
         mine = [[canon_cell(kk), canon_table(t)] for kk, t in o['tables']]
@@ -1075,7 +1086,7 @@ def expand(case, o):
 
 def correspond(cases, obs, tag, tier):
     flat = [(i, pc, po) for i, (c, o) in enumerate(zip(cases, obs)) for pc, po in expand(c, o)]
-    idx = [j for j, (i, c, o) in enumerate(flat) if modellable(c, o) and not (c['kind'] == 'linker' and 'raise' in o)]
+    idx = [j for j, (i, c, o) in enumerate(flat) if modellable(c, o)]
     lines = [encode(flat[j][1], flat[j][2]) for j in idx]
     res, err = run_model(lines)
     if err:
@@ -1269,11 +1280,7 @@ def oracle(case, o):
         want = [case['name']] + [kk for kk, _ in pre['subs']]
         # one table per submodel and one for the linker, found by key: the order of the returned dict is not constrained
         if len(tabs) != len(want) or sorted(json.dumps(x) for x in keys) != sorted(json.dumps(x) for x in want):
-            if any(kk == case['name'] for kk, _ in pre['subs']):
-                bad('linker_to_dataframes', 'submodel-named-like-linker', 'table-missing',
-                    'a submodel keyed like the linker replaces the linker table: keys %s, expected linker + %d submodels' % (keys, len(pre['subs'])))
-            else:
-                bad('linker_to_dataframes', 'keys', 'wrong-tables', 'keys %s, expected %s' % (keys, want))
+            bad('linker_to_dataframes', 'keys', 'wrong-tables', 'keys %s, expected the linker %s and the submodels %s' % (keys, case['name'], want[1:]))
             return fails
         by_key = {json.dumps(kk): t for kk, t in tabs}
         oracle_table(pre['linker'], by_key[json.dumps(case['name'])], case['flags'], 'linker_to_dataframes[linker]', fails)
@@ -1287,9 +1294,8 @@ def oracle(case, o):
             bad('symbols_to_dataframe', 'export', o['table']['raise'], 'symbols_to_dataframe raised %s' % o['table']['raise'])
             return fails
         rt = o['rt']
-        big = any(x is not None and x[0] == 'i' and not (-2 ** 63 <= x[1] < 2 ** 63) for s in o['syms'] for x in (s[2], s[3]))
         if isinstance(rt, dict):
-            bad('symbols-roundtrip', 'lags-leads-outside-int64' if big else 'dataframe_to_symbols', rt['raise'],
+            bad('symbols-roundtrip', 'dataframe_to_symbols', rt['raise'],
                 'dataframe_to_symbols(symbols_to_dataframe(s)) raised %s' % rt['raise'])
         elif rt != o['syms']:
             diff = [(a, b) for a, b in zip(o['syms'], rt) if a != b]
